@@ -538,7 +538,13 @@ def class_program(pid, rnd):
     def members():
         ms = []
         for _ in range(r.randint(0, 3)):
-            kind = r.choice(["m", "m", "get", "set"])
+            kind = r.choice(["m", "m", "get", "set", "field", "field"])
+            if kind == "field":
+                fld = small([])
+                if fld["t"] in ("arglen", "supermcall", "superget", "superset") or "arg" in json.dumps(fld) or "super" in json.dumps(fld):
+                    fld = N("mget", x="a", k=[N("this")])       # (no arguments / super in a field initialiser)
+                ms.append(N("member", x=r.choice(["a", "b"]), kind="field", st=1 if r.random() < 0.3 else 0, k=[N("log", k=[fld])] if r.random() < 0.85 else []))
+                continue
             params = ["p"] if kind == "set" else (["p"] if r.random() < 0.4 else []) if kind == "m" else []
             ms.append(N("member", x=r.choice(["a", "b"]), kind=kind, st=1 if r.random() < 0.3 else 0,
                         k=[mkfn(params, [N("return", k=[N("log", k=[small(params)])])])]))
@@ -732,6 +738,9 @@ def pclass(c, o, ind):
     if c["ctor"]:
         out += "\n  constructor(%s) {%s}" % (params(c["ctor"][0], o), fbody(c["ctor"][0], o, ind))
     for mb in c["k"]:
+        if mb["kind"] == "field":
+            out += "\n  %s%s%s;" % ("static " if mb["st"] else "", mb["x"], (" = " + pe(mb["k"][0], o)) if mb["k"] else "")
+            continue
         pre = ("static " if mb["st"] else "") + ({"m": "", "get": "get ", "set": "set "}[mb["kind"]])
         out += "\n  %s%s(%s) {%s}" % (pre, mb["x"], params(mb["k"][0], o), fbody(mb["k"][0], o, ind))
     return out + "\n}"
